@@ -100,6 +100,82 @@ def skip_quoted(src, i, line):
     raise ShgenError("internal: skip_quoted at %r" % src[i:i + 10])
 
 
+def debacktick(src):
+    """`cmd` means the same as $(cmd): rewrite every backquote substitution (outside single quotes and
+    comments) into the $( ) form before tokenising.  Line structure is kept."""
+    out = []
+    i, n = 0, len(src)
+    stack = ["code"]          # code | dq | paren:<depth>
+    depth = []
+    while i < n:
+        c = src[i]
+        ctx = stack[-1]
+        if c == "\\" and i + 1 < n:
+            out.append(src[i:i + 2])
+            i += 2
+            continue
+        if c == "`":
+            j = i + 1
+            buf = []
+            while j < n and src[j] != "`":
+                if src[j] == "\\" and j + 1 < n and src[j + 1] in "`\\$":
+                    buf.append(src[j + 1])
+                    j += 2
+                    continue
+                buf.append(src[j])
+                j += 1
+            if j >= n:
+                raise ShgenError("unterminated backquote substitution")
+            out.append("$(" + debacktick("".join(buf)) + ")")
+            i = j + 1
+            continue
+        if ctx == "dq":
+            if c == '"':
+                stack.pop()
+            elif src.startswith("$(", i) and not src.startswith("$((", i):
+                stack.append("paren")
+                depth.append(1)
+                out.append("$(")
+                i += 2
+                continue
+            out.append(c)
+            i += 1
+            continue
+        # code context
+        if c == "'":
+            j = src.find("'", i + 1)
+            if j < 0:
+                raise ShgenError("unterminated '")
+            out.append(src[i:j + 1])
+            i = j + 1
+            continue
+        if c == '"':
+            stack.append("dq")
+        elif c == "#" and (i == 0 or src[i - 1] in " \t\n;|&("):
+            j = src.find("\n", i)
+            j = n if j < 0 else j
+            out.append(src[i:j])
+            i = j
+            continue
+        elif src.startswith("$(", i) and not src.startswith("$((", i):
+            stack.append("paren")
+            depth.append(1)
+            out.append("$(")
+            i += 2
+            continue
+        elif ctx == "paren":
+            if c == "(":
+                depth[-1] += 1
+            elif c == ")":
+                depth[-1] -= 1
+                if depth[-1] == 0:
+                    depth.pop()
+                    stack.pop()
+        out.append(c)
+        i += 1
+    return "".join(out)
+
+
 def read_word(src, i, line):
     """Read one shell word starting at src[i]; returns (text, new index, new line)."""
     n = len(src)
@@ -129,6 +205,7 @@ def read_word(src, i, line):
 
 
 def tokenize(src):
+    src = debacktick(src)
     toks = []
     i, n, line = 0, len(src), 1
     while i < n:
@@ -186,24 +263,189 @@ def tokenize(src):
     return toks
 
 
+
+# ------------------------------------------------------------------------------- spelling
+# Different spellings of the same command are mapped to ONE canonical text before classification
+# (the tables below are keyed by canonical text; their keys go through the same function):
+#   * `cmd` ≡ $(cmd)                                    (debacktick, before tokenising)
+#   * ${NAME} ≡ $NAME where the next character cannot continue the name
+#   * the text inside $( ) is parsed and printed canonically (spacing, nested spellings)
+#   * 'lit' and "lit" ≡ lit for a non-empty literal of harmless characters
+#   * "…" around static path variables, $POLICY and harmless literals ≡ the same without quotes
+#     (these values are never empty and the model already assumes that paths contain no blanks or
+#     glob characters: the script uses them unquoted today)
+#   * on the right-hand side of an assignment "…" ≡ … when only variables, $( ) and harmless literals
+#     are inside (no word splitting there)
+#   * test … ≡ [ … ]
+SAFE_LIT = set("abcdefghijklmnopqrstuvwxyzABCDEFGHIJKLMNOPQRSTUVWXYZ0123456789_./:,@%+-")
+IDENT = set("abcdefghijklmnopqrstuvwxyzABCDEFGHIJKLMNOPQRSTUVWXYZ0123456789_")
+NEVER_EMPTY_PLAIN = {"BASE", "GIT_URL", "POLICYDB", "CURRENT", "NEXT", "PSRC", "PCODE", "PLOG", "POLICY_FILE",
+                     "PREV_CODE", "POLICY"}
+ASSIGN_RX = re.compile(r"^([A-Za-z_][A-Za-z0-9_]*)=")
+
+
+def canon_script(text):
+    """canonical one-line text of a piece of shell code (the inside of $( ), a table key)"""
+    return render(Parser(tokenize(text)).parse_script())
+
+
+def _items(w, i, end_dq):
+    """split w[i:] into items until the closing double quote (end_dq) or the end of the word.
+    items: ('lit', c) ('esc', 2 chars) ('var', NAME) ('sub', canonical inner) ('other', text)
+           ('sq', content) ('dq', [items])"""
+    n = len(w)
+    out = []
+    while i < n:
+        c = w[i]
+        if end_dq and c == '"':
+            return out, i + 1
+        if c == "\\" and i + 1 < n:
+            out.append(("esc", w[i:i + 2]))
+            i += 2
+            continue
+        if c == "'" and not end_dq:
+            j = w.find("'", i + 1)
+            out.append(("sq", w[i + 1:j]))
+            i = j + 1
+            continue
+        if c == '"' and not end_dq:
+            inner, i = _items(w, i + 1, True)
+            out.append(("dq", inner))
+            continue
+        if w.startswith("$(", i) and not w.startswith("$((", i):
+            j, _ = skip_quoted(w, i, 0)
+            out.append(("sub", canon_script(w[i + 2:j - 1])))
+            i = j
+            continue
+        if w.startswith("${", i):
+            j = w.find("}", i)
+            name = w[i + 2:j]
+            if name and all(ch in IDENT for ch in name) and not name[0].isdigit():
+                out.append(("var", name))
+            else:
+                out.append(("other", w[i:j + 1]))
+            i = j + 1
+            continue
+        if c == "$" and i + 1 < n and (w[i + 1].isalpha() or w[i + 1] == "_"):
+            j = i + 1
+            while j < n and w[j] in IDENT:
+                j += 1
+            out.append(("var", w[i + 1:j]))
+            i = j
+            continue
+        if c == "$" and i + 1 < n and w[i + 1] in "@*#?!$-0123456789":
+            out.append(("other", w[i:i + 2]))
+            i += 2
+            continue
+        out.append(("lit", c))
+        i += 1
+    if end_dq:
+        raise ShgenError("unterminated \" in word %r" % w)
+    return out, i
+
+
+def _flat(items, assign, out):
+    for it in items:
+        k = it[0]
+        if k == "lit" or k == "esc" or k == "other":
+            out.append(("t", it[1]))
+        elif k == "var":
+            out.append(("v", it[1]))
+        elif k == "sub":
+            out.append(("t", "$(" + it[1] + ")"))
+        elif k == "sq":
+            if it[1] and all(ch in SAFE_LIT for ch in it[1]):
+                out.append(("t", it[1]))
+            else:
+                out.append(("t", "'" + it[1] + "'"))
+        elif k == "dq":
+            inner = it[1]
+
+            def harmless(x):
+                if x[0] == "lit":
+                    return x[1] in SAFE_LIT
+                if x[0] == "var":
+                    return assign or x[1] in NEVER_EMPTY_PLAIN
+                if x[0] == "sub":
+                    return assign
+                return False
+            if inner and all(harmless(x) for x in inner):
+                _flat(inner, assign, out)
+            else:
+                out.append(("t", '"'))
+                _flat(inner, assign, out)
+                out.append(("t", '"'))
+
+
+def norm_word(w, assign=False):
+    m = ASSIGN_RX.match(w) if assign else None
+    head = ""
+    if m:
+        head, w = m.group(0), w[m.end():]
+    items, _ = _items(w, 0, False)
+    flat = []
+    _flat(items, bool(m), flat)
+    res = []
+    for idx, (k, t) in enumerate(flat):
+        if k == "t":
+            res.append(t)
+        else:
+            nxt = ""
+            for k2, t2 in flat[idx + 1:]:
+                if k2 == "v":
+                    nxt = "$"
+                    break
+                if t2:
+                    nxt = t2[0]
+                    break
+            res.append("${%s}" % t if nxt in IDENT and nxt != "" else "$" + t)
+    r = head + "".join(res)
+    if r in RESERVED or r == "":
+        return head + w
+    return r
+
+
+def norm_redir(r):
+    m = re.match(r"(\d*)(<>|>>|>&|<&|>\||>|<)(.*)$", r, re.S)
+    return m.group(1) + m.group(2) + norm_word(m.group(3))
+
+
 # ------------------------------------------------------------------------------- AST
 
 class Simple:
     def __init__(self, words, redirs, line):
-        self.words, self.redirs, self.line = words, redirs, line
+        self.raw = " ".join(words + redirs)
+        self.decl = None             # 'local' | 'readonly': declaration in front of ONE assignment / name
+        if words and words[0] in ("local", "readonly") and len(words) == 2:
+            self.decl, words = words[0], words[1:]
+        elif words and words[0] in ("declare", "typeset") and len(words) == 3 and words[1] == "-r":
+            self.decl, words = "readonly", words[2:]
+        out, prefix = [], True
+        for w in words:
+            a = prefix and ASSIGN_RX.match(w) is not None
+            prefix = a
+            out.append(norm_word(w, assign=a))
+        if out and out[0] == "test":
+            out = ["["] + out[1:] + ["]"]
+        if out == [":"]:
+            out = ["true"]
+        self.words, self.redirs, self.line = out, [norm_redir(r) for r in redirs], line
 
     def text(self):
         """normalised text; the redirection `9>&-` (do not hand the lock descriptor to the child) is
         not part of it, see nofd()"""
         return " ".join(self.words + [r for r in self.redirs if r != "9>&-"])
 
+    def shown(self):
+        return (self.decl + " " if self.decl else "") + self.text() + (" 9>&-" if self.nofd() else "")
+
     def nofd(self):
         return "9>&-" in self.redirs
 
 
 class Pipeline:
-    def __init__(self, cmds):
-        self.cmds = cmds
+    def __init__(self, cmds, neg=False):
+        self.cmds, self.neg = cmds, neg          # neg: `! pipeline`
 
 
 class AndOr:
@@ -243,7 +485,7 @@ class FuncDef:
 
 RESERVED = {"if", "then", "else", "elif", "fi", "while", "do", "done", "{", "}", "for", "case", "esac",
             "until", "select", "function", "[[", "!", "in", "time", "coproc"}
-UNSUPPORTED = {"for", "case", "esac", "until", "select", "function", "[[", "!", "time", "coproc"}
+UNSUPPORTED = {"for", "case", "esac", "until", "select", "[[", "time", "coproc"}
 
 
 class Parser:
@@ -323,12 +565,16 @@ class Parser:
         return AndOr(first, rest)
 
     def parse_pipeline(self):
+        neg = False
+        while self.is_word("!"):
+            self.next()
+            neg = not neg
         cmds = [self.parse_command()]
         while self.peek().kind == "OP" and self.peek().val == "|":
             self.next()
             self.skip_nl()
             cmds.append(self.parse_command())
-        return Pipeline(cmds)
+        return Pipeline(cmds, neg)
 
     def parse_redirs(self):
         r = []
@@ -362,6 +608,17 @@ class Parser:
             if self.peek().kind == "REDIR":
                 raise ShgenError("line %d: redirected loop not understood" % t.line)
             return While(cond, body)
+        if t.kind == "WORD" and t.val == "function" and self.peek(1).kind == "WORD":
+            self.next()
+            name = self.next().val
+            if self.peek().kind == "OP" and self.peek().val == "(":
+                self.next()
+                self.expect_op(")")
+            self.skip_nl()
+            body = self.parse_command()
+            if not isinstance(body, Group) or body.redirs:
+                raise ShgenError("line %d: function body of %s must be a plain { } group" % (t.line, name))
+            return FuncDef(name, body.body, t.line)
         if t.kind == "WORD" and self.peek(1).kind == "OP" and self.peek(1).val == "(" \
                 and self.peek(2).kind == "OP" and self.peek(2).val == ")":
             name = self.next().val
@@ -404,9 +661,9 @@ class Parser:
 def render(node):
     """Canonical one-line text of a construct (used as classification key)."""
     if isinstance(node, Simple):
-        return node.text()
+        return (node.decl + " " if node.decl else "") + node.text()
     if isinstance(node, Pipeline):
-        return " | ".join(render(c) for c in node.cmds)
+        return ("! " if node.neg else "") + " | ".join(render(c) for c in node.cmds)
     if isinstance(node, AndOr):
         s = render(node.first)
         for op, p in node.rest:
@@ -537,6 +794,27 @@ SUBSHELL_LOCALS = {"DIR", "rev1", "rev2", "orig"}
 VARREF = re.compile(r"\$\{?([A-Za-z_][A-Za-z0-9_]*)")
 
 
+def _canon_keys(table):
+    out = {}
+    for k, v in table.items():
+        ck = canon_script(k)
+        if ck in out:
+            raise ShgenError("internal: two table entries with the canonical text %r" % ck)
+        out[ck] = v
+    return out
+
+
+def canon_tables():
+    """the table keys are written as in today's script; they are compared in canonical spelling"""
+    global EXACT, PIPELINES, SUBSHELLS, STATIC_DEFS
+    STATIC_DEFS = {v: canon_script(t) for v, t in STATIC_DEFS.items()}
+    EXACT = _canon_keys(EXACT)
+    PIPELINES = _canon_keys(PIPELINES)
+    SUBSHELLS = _canon_keys(SUBSHELLS)
+    for name in WRAPPER_OK:
+        WRAPPER_OK[name] = _canon_keys(WRAPPER_OK[name])
+
+
 def lean_str(s):
     return '"' + s.replace("\\", "\\\\").replace('"', '\\"') + '"'
 
@@ -582,6 +860,10 @@ class Compiler:
         self.cwd = None
         self.fn_lists = {}        # function name -> [cmd terms]
         self.inlining = []
+        self.mentions = []        # (position = number of instructions emitted before, variable)
+        self.locals = []          # (variable, function, position of the `local` statement, line)
+        self.fn_extent = {}       # function -> (first, one past last) instruction of its inlined body
+        self.readonly = {}        # variable -> line of its readonly declaration
 
     # ---- pass A: allocate instruction slots in execution order ------------------------------
     def err(self, line, msg):
@@ -589,6 +871,7 @@ class Compiler:
 
     def check_vars(self, text, line, extra=()):
         for v in VARREF.findall(text):
+            self.mentions.append((len(self.instrs), v))
             if v in DYNAMIC or v in extra:
                 continue
             if v in STATIC_DEFS:
@@ -606,6 +889,27 @@ class Compiler:
 
     def classify_simple(self, s):
         text = s.text()
+        am = ASSIGN_RX.match(text)
+        if s.decl is not None and am is None:
+            # `readonly NAME` after its definition: nothing happens
+            if s.decl == "readonly" and len(s.words) == 1 and s.words[0] in STATIC_DEFS and not s.redirs \
+                    and s.words[0] in self.static_env and not self.inlining and self.depth0():
+                self.readonly[s.words[0]] = s.line
+                return '.nop "readonly %s"' % s.words[0]
+            self.err(s.line, "declaration not understood: %r" % s.shown())
+        if am is not None:
+            v = am.group(1)
+            self.mentions.append((len(self.instrs), v))
+            if v in self.readonly:
+                self.err(s.line, "assignment to $%s, which line %d declares readonly" % (v, self.readonly[v]))
+            if s.decl == "readonly":
+                if self.inlining or not self.depth0():
+                    self.err(s.line, "readonly inside a function or conditional is not understood: %r" % s.shown())
+                self.readonly[v] = s.line
+            if s.decl == "local":
+                if not self.inlining:
+                    self.err(s.line, "local outside a function")
+                self.locals.append((v, self.inlining[-1], len(self.instrs), s.line))
         ent = EXACT.get(text)
         if ent is None:
             for rx, f in REGEX:
@@ -701,6 +1005,7 @@ class Compiler:
                 self.alloc_list(f.body, push=False)
                 self.fn_base.pop()
                 self.inlining.pop()
+                self.fn_extent[name] = (c.enter_slot, len(self.instrs))
                 self.cwd = None                 # conservatively unknown after a call
                 return
             cmd = self.classify_simple(c)
@@ -711,7 +1016,7 @@ class Compiler:
                 c.last = self.emit(self.git_wrapper, cmd, 'command ' + c.text() + ' 9>&-', inh=False)
                 c.pre = [c.slot, mid, c.last]
                 return
-            c.slot = self.emit(c.line, cmd, c.text() + (" 9>&-" if c.nofd() else ""), inh=not c.nofd())
+            c.slot = self.emit(c.line, cmd, c.raw, inh=not c.nofd())
             return
         if isinstance(c, Subshell):
             text = render(c)
@@ -803,6 +1108,8 @@ class Compiler:
             self.comp_pipeline(part, ok_t, fail_t, ctx)
 
     def comp_pipeline(self, p, k_ok, k_fail, ctx):
+        if p.neg:
+            k_ok, k_fail = k_fail, k_ok
         if len(p.cmds) == 1:
             self.comp_command(p.cmds[0], k_ok, k_fail, ctx)
             return
@@ -843,6 +1150,8 @@ class Compiler:
                 self.set_k(slot, ctx["ret"][0], ctx["ret"][1])
             elif text.startswith("exit "):
                 self.set_k(slot, slot, slot)      # terminal
+            elif c.decl is not None:
+                self.set_k(slot, k_ok, k_ok)      # the status of `local`/`readonly` hides that of $( )
             else:
                 self.set_k(slot, k_ok, k_fail)
             return
@@ -874,6 +1183,13 @@ class Compiler:
         for name in self.funcs:
             if name not in self.calls:
                 raise ShgenError("%s: function %s is never called (not understood)" % (self.fname, name))
+        for v, fn, pos, line in self.locals:
+            first, last = self.fn_extent[fn]
+            for mpos, mv in self.mentions:
+                if mv == v and not (pos <= mpos < last):
+                    where = self.instrs[min(mpos, len(self.instrs) - 1)]["line"]
+                    self.err(line, "local %s in %s(), but line %d uses $%s outside the function or before this "
+                                   "declaration (not the same meaning as a global)" % (v, fn, where, v))
         end = len(self.instrs)          # falling off the end of the script
         self.comp_list(top, end, end, {})
         for n, ins in enumerate(self.instrs):
@@ -974,6 +1290,7 @@ end NA.Gen.NewPolicy
 
 
 def main():
+    canon_tables()
     ap = argparse.ArgumentParser()
     ap.add_argument("-repo", default="/repo")
     ap.add_argument("-out", required=True)
